@@ -147,6 +147,14 @@ func (g *declGen) opt() *OptSpec {
 	}
 	if cfg.Choices && (kind == "string" || kind == "[]string") && r.Chance(1, 4) {
 		o.Choices = []string{"red", "green", "blue"}
+		switch r.Intn(5) {
+		case 0: // a repeated choice tag is accepted by the library
+			o.Choices = []string{"red", "green", "red", "blue", "green"}
+		case 1:
+			o.Choices = []string{"blue", "red", "green", "amber", "cyan"}
+		case 2:
+			o.Choices = []string{"red"}
+		}
 		o.Default = nil
 		o.OptionalValue = nil
 		o.Optional = false
